@@ -405,6 +405,14 @@ def run_case(case):
             kw["inputmean"] = float(rng.normal())
         elif r < .3:
             kw["inputmean"] = rng.normal(size=d)
+        elif r < .4:
+            # whole-number data and a whole-number mean, both in narrow / unsigned integer dtypes (a reference row or a
+            # rounded median of the same table), also as a list
+            t = str(rng.choice(["u1", "u2", "i2", "i4", "i8"]))
+            hi = {"u1": 250, "u2": 60000, "i2": 30000, "i4": 2 * 10 ** 9, "i8": 10 ** 12}[t]
+            x = rng.integers(0, hi, size=(n, d)).astype(t)
+            im = np.median(x, axis=0).astype(t)
+            kw["inputmean"] = im if rng.random() < .6 else im.tolist()
         probe.attempt(st.wmom, x, w, **kw)
     elif fam == "wmedian":
         if rng.random() < .5:
